@@ -6,7 +6,8 @@ open Base
 let items_s it = cat "," (L.map (fun (k, v) -> hx k ^ "=" ^ hx v) it)
 let doc_s t = cat "" (L.map (fun p -> "[" ^ items_s p ^ "]") (Deb822Parse.doc_items t))
 
-(* init:  T:<hex text> (from_str_relaxed) | F:<ldoc> (FromIterator of paragraphs built from pairs) | N (Deb822::new) *)
+(* init:  T:<hex text> (from_str_relaxed) | F:<ldoc> (FromIterator of paragraphs built from pairs) | N (Deb822::new)
+          | P:<hex;hex;..> (FromIterator of paragraphs parsed from each text) *)
 let init_tree (s : string) : Deb822Lex.kind elem res =
   if s = "N" then Ok (Deb822Edit.deb822_of_paragraphs [])
   else if S.length s >= 2 && S.sub s 0 2 = "T:" then
@@ -15,6 +16,14 @@ let init_tree (s : string) : Deb822Lex.kind elem res =
   else if S.length s >= 2 && S.sub s 0 2 = "F:" then
     Ok (Deb822Edit.deb822_of_paragraphs
           (L.map Deb822Edit.paragraph_of_pairs (S_lossy.parse_ldoc (S.sub s 2 (S.length s - 2)))))
+  else if S.length s >= 2 && S.sub s 0 2 = "P:" then
+    (* FromIterator of paragraphs obtained by Paragraph::from_str of each ';'-separated text *)
+    let texts = L.filter (fun x -> x <> "") (S.split_on_char ';' (S.sub s 2 (S.length s - 2))) in
+    let rec go acc = function
+      | [] -> Ok (Deb822Edit.deb822_of_paragraphs (L.rev acc))
+      | h :: r -> (match Deb822Parse.paragraph_from_str (str_of_hex h) with
+                   | Ok p -> go (p :: acc) r | Err e -> Err e | Panic n -> Panic n | OutOfFuel -> OutOfFuel) in
+    go [] texts
   else failwith "bad init"
 
 (* the text of every paragraph (Paragraph::to_string), '.'-terminated so that empty texts stay visible *)
